@@ -1,82 +1,12 @@
 import Witverif.Abi.Gen
+import Witverif.Abi.Validate
 import Drivers.Util
+import Drivers.AbiParse
 /-! Driver for the ABI generator model (C01–C04, C16).  One request per line, fields separated by `|`
 (the KEY printed by the Rust harness `abi-trace`); answer = the model's result in the same text form. -/
 open Witverif.Abi Drivers
 
-inductive Sexp where
-  | atom (s : String)
-  | list (xs : List Sexp)
-deriving Repr, Inhabited
-
-/-- tokenise: parentheses and whitespace-separated atoms -/
-def tokenize (s : String) : List String :=
-  let rec go (cs : List Char) (cur : List Char) (acc : List String) : List String :=
-    match cs with
-    | [] => (if cur.isEmpty then acc else String.ofList cur.reverse :: acc).reverse
-    | c :: rest =>
-      let flush := if cur.isEmpty then acc else String.ofList cur.reverse :: acc
-      if c == '(' then go rest [] ("(" :: flush)
-      else if c == ')' then go rest [] (")" :: flush)
-      else if c == ' ' then go rest [] flush
-      else go rest (c :: cur) acc
-  go s.toList [] []
-
-partial def parseSexps (toks : List String) : List Sexp × List String :=
-  match toks with
-  | [] => ([], [])
-  | ")" :: rest => ([], rest)
-  | "(" :: rest =>
-    let (inner, rest') := parseSexps rest
-    let (more, rest'') := parseSexps rest'
-    (Sexp.list inner :: more, rest'')
-  | a :: rest =>
-    let (more, rest') := parseSexps rest
-    (Sexp.atom a :: more, rest')
-
-def parseSexp (s : String) : Option Sexp :=
-  match (parseSexps (tokenize s)).1 with
-  | [x] => some x
-  | _ => none
-
-mutual
-partial def toTy : Sexp → Option Ty
-  | .atom "bool" => some .bool | .atom "s8" => some .s8 | .atom "u8" => some .u8
-  | .atom "s16" => some .s16 | .atom "u16" => some .u16 | .atom "s32" => some .s32
-  | .atom "u32" => some .u32 | .atom "s64" => some .s64 | .atom "u64" => some .u64
-  | .atom "f32" => some .f32 | .atom "f64" => some .f64 | .atom "char" => some .char
-  | .atom "string" => some .string | .atom "errctx" => some .errctx
-  | .atom "own" => some .own | .atom "borrow" => some .borrow
-  | .list [.atom "list", e] => (toTy e).map .list
-  | .list [.atom "flist", e, .atom n] => do pure (.flist (← toTy e) (← n.toNat?))
-  | .list [.atom "map", k, v] => do pure (.map (← toTy k) (← toTy v))
-  | .list (.atom "record" :: fs) => (fs.mapM toTy).map .record
-  | .list (.atom "tuple" :: fs) => (fs.mapM toTy).map .tuple
-  | .list [.atom "flags", .atom n] => n.toNat?.map .flags
-  | .list [.atom "enum", .atom n] => n.toNat?.map .enum
-  | .list (.atom "variant" :: cs) => (cs.mapM toOptTy).map .variant
-  | .list [.atom "option", t] => (toTy t).map .option
-  | .list [.atom "result", a, b] => do pure (.result (← toOptTy a) (← toOptTy b))
-  | .list [.atom "future", p] => (toOptTy p).map .future
-  | .list [.atom "stream", p] => (toOptTy p).map .stream
-  | _ => none
-partial def toOptTy : Sexp → Option (Option Ty)
-  | .atom "_" => some none
-  | s => (toTy s).map some
-end
-
-def toFunc : Sexp → Option Func
-  | .list [.atom "fn", .atom kind, .list ps, r] => do
-      pure { isMethod := kind == "method", params := ← ps.mapM toTy, result := ← toOptTy r }
-  | _ => none
-
-def parseTy (s : String) : Option Ty := (parseSexp s).bind toTy
-def parseFunc (s : String) : Option Func := (parseSexp s).bind toFunc
-def parseTys (s : String) : Option (List Ty) := ((parseSexps (tokenize s)).1).mapM toTy
-
-def parseCore : String → Option CoreTy
-  | "i32" => some .i32 | "i64" => some .i64 | "f32" => some .f32 | "f64" => some .f64
-  | "ptr" => some .ptr | "p64" => some .p64 | "len" => some .len | _ => none
+open Drivers.AbiParse
 
 def parseVariant : String → Option Variant
   | "GuestImport" => some .guestImport | "GuestExport" => some .guestExport
@@ -159,6 +89,36 @@ def handle (line : String) : String :=
       match parseCore a, parseCore b with
       | some a, some b => match cast a b with | some c => c.str | none => "panic:unreachable"
       | _, _ => "bad-request"
+  | ["eval", kind, p, t, v, tree] =>
+      match p.toNat?, parseTy t, parseVal v, parseBlock tree with
+      | some p, some t, some v, some b =>
+          if !Spec.hasTy t v then "bad-value" else
+          match kind with
+          | "lowerflat" => checkLowerFlat p t v b
+          | "lowermem" => checkLowerMem p t v b
+          | "liftmem" => checkLiftMem p t v b
+          | "dealloc-lists-direct" => checkDealloc p false false t v b
+          | "dealloc-lists-indirect" => checkDealloc p false true t v b
+          | "dealloc-own-direct" => checkDealloc p true false t v b
+          | "dealloc-own-indirect" => checkDealloc p true true t v b
+          | _ => "bad-request"
+      | _, _, _, none => "unparsable-tree"
+      | _, _, _, _ => "bad-request"
+  | ["evalcall", v, ll, as, p, f, vals, res, tree] =>
+      match parseVariant v, p.toNat?, parseFunc f, parseVal vals, parseBlock tree with
+      | some v, some p, some f, some (.record vs), some b =>
+          let r : Option (Option Val) := if res == "_" then some none else (parseVal res).map some
+          match r with
+          | none => "bad-request"
+          | some r =>
+            if !Spec.hasTys f.params vs || !Spec.hasTyOpt f.result r then "bad-value"
+            else checkCall p v (ll == "lower") (as == "async") f vs r b
+      | _, _, _, _, none => "unparsable-tree"
+      | _, _, _, _, _ => "bad-request"
+  | ["reprint", tree] =>
+      match parseBlock tree with
+      | some b => Block.str b
+      | none => "unparsable-tree"
   | _ => "bad-request"
 
 def main : IO Unit := lineLoop handle
